@@ -1069,3 +1069,96 @@ impl Cfg {
         }
     }
 }
+
+pub const FOLLOWERS: &[&str] = &[" ", ";", "(", ".", "\n", "\u{3000}", "é", "+", "'", "{", "#", ""];
+pub const KEYWORD_SAMPLE: &[&str] = &[
+    "begin", "end", "implementation", "dispinterface", "resourcestring", "if", "of", "to", "absolute", "writeonly",
+    "winapi", "xor", "asm", "at", "on", "finalization", "initialization", "reintroduce", "experimental", "in",
+];
+
+/// G6: one word of a given class and length at a given alignment, followed by a delimiter class
+pub fn lex_family_case(class: usize, len: usize, off: usize, follower: usize, rng: &mut Rng) -> String {
+    let mut s = " ".repeat(off);
+    let mut word = String::new();
+    match class % 6 {
+        0 => {
+            for i in 0..len {
+                let c = if i == 0 { *rng.pick(&['a', 'Z', '_', 'q']) } else { *rng.pick(&['a', 'B', '_', '0', '9', 'z', 'Z', 'm']) };
+                word.push(c);
+            }
+        }
+        1 => {
+            let k = KEYWORD_SAMPLE[len % KEYWORD_SAMPLE.len()];
+            for ch in k.chars() {
+                if rng.chance(1, 2) {
+                    word.push(ch.to_ascii_uppercase())
+                } else {
+                    word.push(ch)
+                }
+            }
+        }
+        2 => {
+            for _ in 0..len {
+                word.push(*rng.pick(&['0', '1', '7', '9', '_']));
+            }
+            if !word.starts_with(|c: char| c.is_ascii_digit()) {
+                word.insert(0, '4');
+            }
+        }
+        3 => {
+            word.push('$');
+            for _ in 0..len {
+                word.push(*rng.pick(&['0', 'a', 'F', '9', '_']));
+            }
+        }
+        4 => {
+            // identifier with a non-ASCII character somewhere
+            let pos = rng.below(len.max(1));
+            for i in 0..len {
+                if i == pos {
+                    word.push(*rng.pick(&['é', 'ß', '日', 'д', '\u{1F600}']));
+                } else {
+                    word.push(*rng.pick(&['a', 'B', '_', '0', 'z']));
+                }
+            }
+            if word.starts_with(|c: char| c.is_ascii_digit()) {
+                word.insert(0, 'x');
+            }
+        }
+        _ => {
+            // keyword prefix/suffix near-misses
+            let k = KEYWORD_SAMPLE[len % KEYWORD_SAMPLE.len()];
+            word.push_str(k);
+            word.push(*rng.pick(&['s', '_', '1', 'é']));
+        }
+    }
+    s.push_str(&word);
+    s.push_str(FOLLOWERS[follower % FOLLOWERS.len()]);
+    if rng.chance(1, 2) {
+        s.push_str("x := 1;");
+    }
+    s
+}
+
+pub fn lex_family(rng: &mut Rng, n: usize, exhaustive: bool) -> Vec<String> {
+    let mut v = vec![];
+    if exhaustive {
+        for len in 1..=200usize {
+            for off in 0..=64usize {
+                for f in 0..FOLLOWERS.len() {
+                    let class = (len + off + f) % 6;
+                    v.push(lex_family_case(class, len, off, f, rng));
+                }
+            }
+        }
+    } else {
+        for _ in 0..n {
+            let len = if rng.chance(1, 2) { rng.range(1, 40) } else { rng.range(1, 200) };
+            let off = rng.range(0, 64);
+            let f = rng.below(FOLLOWERS.len());
+            let class = rng.below(6);
+            v.push(lex_family_case(class, len, off, f, rng));
+        }
+    }
+    v
+}
